@@ -24,7 +24,7 @@ import (
 
 func Main() {
 	mc.Main("C31", "model_checking",
-		"explicit-state BFS over the real TieredChunkCache(maxEntries=2, unit=16 B, disk=U units; U=16: volumes of 16/32/64 B, U=32: 32/64/128 B): events set(fid,size) over 4 file ids (base, same key other volume, same key other cookie, other key) x sizes around the tier limits {1,16,17,64,65,200} and restart (shutdown + reopen of the same directory with the volume mtime order kept or reversed and the leveldb index made fresh or stale); after every event the whole lookup battery runs: GetChunk(fid,m) for m in {1,16,17,64,65,200} and GetChunkSlice(fid,off,len) for (0,1),(0,16),(0,17),(0,65),(3,5) on all 4 file ids; a non-empty result must be exactly the corresponding bytes of the per-file-id pattern that was stored under THAT id and not longer than anything stored; unmerged to depth d0, merged on (memory tier contents, per tier/volume size and per key entry size + owner, reference) to depth d1; distinct = (event class, lookup outcome class)",
+		"explicit-state BFS over the real TieredChunkCache(maxEntries=2, unit=16 B, disk=U units; volumes per tier U=24: 24/48/96 B, U=16: 16/32/64 B, U=32: 32/64/128 B): events set(fid,size) over 4 file ids (base, same key other volume, same key other cookie, other key) x sizes around the tier limits {1,16,17,64,65,200} and restart (shutdown + reopen of the same directory with the volume mtime order kept or reversed and the leveldb index made fresh or stale); after every event the whole lookup battery runs: GetChunk(fid,m) for m in {1,16,17,64,65,200} and GetChunkSlice(fid,off,len) for (0,1),(0,16),(0,17),(0,65),(3,5) on all 4 file ids; a non-empty result must be exactly the corresponding bytes of the per-file-id pattern that was stored under THAT id and not longer than anything stored; unmerged to depth d0, merged on (memory tier contents, per tier/volume size and per key entry size + owner, reference) to depth d1; distinct = (event class, lookup outcome class)",
 		run)
 }
 
@@ -388,12 +388,16 @@ var (
 )
 
 // plans: the quick tier is the first plan of the thorough tier with a smaller depth.
+// u24: tier0 2x24 B and tier2 2x96 B rotate on every write of the sizes used (the
+// third write resets the volume holding the first), tier1 3x48 B packs two
+// 17-byte needles (24 B padded) per volume.  u16: every write rotates.  u32: two
+// needles per volume in tier0 and tier1.
 func plans(r *mc.Run) []plan {
 	if r.Quick() {
-		return []plan{{config{"u16", 16, quickSizes, quickRestarts}, 1, 3}}
+		return []plan{{config{"u24", 24, quickSizes, quickRestarts}, 1, 3}}
 	}
 	return []plan{
-		{config{"u16", 16, quickSizes, quickRestarts}, 1, 4},
+		{config{"u24", 24, quickSizes, quickRestarts}, 1, 4},
 		{config{"u16-all", 16, allSizes, allRestarts}, 1, 3},
 		{config{"u32", 32, quickSizes, quickRestarts}, 1, 4},
 	}
@@ -402,6 +406,7 @@ func plans(r *mc.Run) []plan {
 func configByName(name string) config {
 	all := map[string]config{
 		"u16":     {"u16", 16, allSizes, nil},
+		"u24":     {"u24", 24, allSizes, nil},
 		"u16-all": {"u16-all", 16, allSizes, nil},
 		"u32":     {"u32", 32, allSizes, nil},
 	}
